@@ -239,7 +239,9 @@ def isAuthoritativeV2 (v : View) (q : Bytes) : R Cut :=
       | none => (st.1, st.2.1, st.2.2.1, true)
     let post := fun (st : Bool × Bool × Nat × Bool) => (st, !st.1)
     match findGo v rev pre onRows post (rev.length + 2) rev.length (false, false, 0, false) with
-    | .ok (ns, auth, zl, _) => .ok ⟨ns, auth, q.drop (q.length - zl)⟩
+    | .ok (ns, auth, zl, _) =>
+      -- no NS on the path: the walk ends at the root, as in `DataReader.IsAuthoritative`
+      .ok ⟨ns, auth, q.drop (q.length - (if ns then zl else 1))⟩
     | .err => .err
     | .panic => .panic
 
